@@ -29,6 +29,12 @@ def broad_dispatch(F):
     raise AnchorMissing('peer task does not dispatch on BroadCmd')
 
 
+def deferred_buffer(F):
+    """access path of the peer task's buffer of frames waiting for the peer to unchoke us (the Vec<Frame> field)"""
+    adt, name = C.field_by_type(F, r'^std::vec::Vec<frame::Frame>$', 'deferred frame buffer', r'^peer_handler::')
+    return 'self.' + name
+
+
 @TABLE.rule('1', 'K7', 'bitfield after handshake = map(status == Have) in index order; only source of SendBitfield; sent only as the reply to Init', floor=3)
 def r1(cx, rec):
     F = cx.F
@@ -112,7 +118,7 @@ def r3(cx, rec):
             arg = ce[2][1]
             okk = arg[0] == 'call' and arg[1].endswith('Have::new') and 'SendHave>.piece_index' in show(arg[2][0])
             sends.append((bb, okk))
-        if t.get('name') == 'push' and (access_path(ce[2][0]) or '').endswith('msg_buff'):
+        if t.get('name') == 'push' and (access_path(ce[2][0]) or '') == deferred_buffer(F):
             okk = 'Have::new' in show(ce[2][1]) and 'SendHave>.piece_index' in show(ce[2][1]) and 'frame::Frame::Have' in show(ce[2][1])
             pushes.append((bb, okk))
     for bb, okk in sends:
@@ -144,7 +150,7 @@ def r4(cx, rec):
     for f in F.user_fns():
         for bb in mirq.real_calls(f):
             ce = f.expr_call(bb)
-            if ce[2] and (access_path(ce[2][0]) or '') == 'self.msg_buff':
+            if ce[2] and (access_path(ce[2][0]) or '') == deferred_buffer(F):
                 if ce[4].get('name') == 'into_iter' and ce[2][0][0] == 'call' and ce[2][0][4].get('name') == 'iter':
                     continue
                 uses.setdefault(ce[4].get('name'), []).append((f, bb))
